@@ -1,7 +1,7 @@
 """Symbolic values (python-level wrappers around z3 terms) and conversions to/from z3 sorts."""
 import itertools
 import z3
-from .ty import (Ty, TInt, TBool, TBytes, TStr, TNone, TAny, TExc, TOpt, TList, TTuple, TDict, TSet, TRec, TRef,
+from .ty import (TObj, Ty, TInt, TBool, TBytes, TStr, TNone, TAny, TExc, TOpt, TList, TTuple, TDict, TSet, TRec, TRef,
                  RECS, UNIONS, sort_of, rec_sort, union_of, Opaque)
 
 _counter = itertools.count()
@@ -172,6 +172,24 @@ class VRef(V):
         return f'VRef<{self.cls}>({self.z})'
 
 
+class VObj(V):
+    """member of a fixed table of python objects; z is its int index; data carries python-level payload"""
+    __slots__ = ('kind', 'z', 'data')
+
+    def __init__(self, kind, z, data=None):
+        if isinstance(z, int):
+            z = z3.IntVal(z)
+        self.kind, self.z, self.data = kind, z, data
+
+    def __repr__(self):
+        return f'VObj<{self.kind}>({self.z})'
+
+
+class VFrozenSet(V):
+    def __init__(self, items):
+        self.items = items
+
+
 class VDict(V):
     __slots__ = ('k', 'v', 'z')
 
@@ -287,6 +305,8 @@ def ty_of(v):
         return TRec(v.name)
     if isinstance(v, VRef):
         return TRef(v.cls)
+    if isinstance(v, VObj):
+        return TObj(v.kind)
     if isinstance(v, VDict):
         return TDict(v.k, v.v)
     if isinstance(v, VSet):
@@ -325,6 +345,8 @@ def from_z3(term, ty):
         return VRec(ty.name, term)
     if k == 'ref':
         return VRef(ty.name, term)
+    if k == 'obj':
+        return VObj(ty.name, term)
     if k == 'dict':
         return VDict(ty.k, ty.v, term)
     if k == 'set':
@@ -390,6 +412,9 @@ def to_z3(v, ty):
     elif k == 'ref':
         if isinstance(v, VRef):
             return v.z
+    elif k == 'obj':
+        if isinstance(v, VObj) and v.kind == ty.name:
+            return v.z
     elif k == 'dict':
         if isinstance(v, VDict) and v.k == ty.k and v.v == ty.v:
             return v.z
@@ -453,6 +478,8 @@ def same(a, b):
         return z3.And([same(x, y) for x, y in zip(a.items, b.items)] + [z3.BoolVal(True)])
     if isinstance(a, (VInt, VBool)) and isinstance(b, (VInt, VBool)):
         return to_z3(a, TInt) == to_z3(b, TInt)
+    if isinstance(a, VObj) and isinstance(b, (VObj, VInt)) or isinstance(b, VObj) and isinstance(a, VInt):
+        return a.z == b.z
     if isinstance(a, VList) and isinstance(b, VList):
         if a.elem is None and b.elem is None:
             return z3.BoolVal(True)
